@@ -101,6 +101,25 @@ def check_stress(ctx):
             return
 
 
+def check_multi(ctx):
+    """several streams sharing one AppStats, with a concurrent statistics dump"""
+    ns, g, per, nd = (6, 2, 8000, 300) if ctx.tier == "quick" else (8, 2, 100000, 3000)
+    for rep in range(2 if ctx.tier == "quick" else 4):
+        rc, out = ctx.vh("vh-api", ["emit-multi", str(ns), str(g), str(per), str(nd)], timeout=900)
+        try:
+            o = json.loads(out.strip().splitlines()[-1])
+        except Exception:
+            ctx.broken.append("emit-multi failed: " + out[-300:])
+            return
+        ctx.count_case(("emit-multi", ns, g, per, nd, rep), True, "emit-multi")
+        ctx.cov["multi_stream"] = o
+        if not (o["matched"] == o["expected"] and o["streams_exact"] == o["streams"]):
+            ctx.violation({"kind": "emit-multi", "args": [ns, g, per, nd], "observed": o,
+                           "explanation": "several streams sharing one AppStats: matched pairs (dumps + residue) must equal the number of emits and every stream must have N distinct indices",
+                           "how": "vh-api emit-multi %d %d %d %d" % (ns, g, per, nd)})
+            return
+
+
 def run(ctx):
     ctx.build_harness()
     if not ctx.harness_tagged:
@@ -112,6 +131,7 @@ def run(ctx):
     base_ok = not ({"Base/Prelude.v", "Api/Emit.v"} & failed)
     check_sched(ctx, base_ok)
     check_stress(ctx)
+    check_multi(ctx)
     if "Api/EmitTie.v" in failed and not ctx.violations:
         # the source's Emit is no longer the atom sequence the theorem is about: show the model's
         # witness when the lock is gone
